@@ -161,10 +161,6 @@ def run(ctx):
         key = None
         if extra == 0 and lost_names and scn["recovery"] and scn["dir"] == "s2c" and all(r["trailing"][n] for n in lost_names):
             key = "recovery-on:trailing-string-arg"
-        if r.get("ws_att_in_flight"):
-            # two transports feed the client's parser and the websocket one carries attachments:
-            # outside feeders_safe (C01_feeders_websocket_attachments_refuted)
-            key = "upgrade-window:late-poll-vs-websocket-attachments"
         what = ("scenario %d (%s%s%s, recovery %s, %s, %d client(s), %d emitter(s), size %s): %s" % (
             scn["id"], scn["transport"], " mid-upgrade" if scn["mid"] else "",
             (" held " + scn["held"]) if scn.get("held") else "", "on" if scn["recovery"] else "off",
